@@ -102,6 +102,38 @@ pub fn reference_call_main(call_json: &str) -> i32 {
     0
 }
 
+fn call_in_child(exe: &std::path::Path, js: &str, loc: &str, tz: &str) -> Result<(String, Option<String>), String> {
+    match std::process::Command::new(exe)
+        .arg("reference-call")
+        .arg(js)
+        .env("LANG", loc)
+        .env("LC_ALL", loc)
+        .env("LC_NUMERIC", loc)
+        .env("LANGUAGE", loc)
+        .env("TZ", tz)
+        .output()
+    {
+        Ok(o) if o.status.code() == Some(0) => {
+            let so = String::from_utf8_lossy(&o.stdout).to_string();
+            let mut lines = so.lines();
+            match lines.next().and_then(|l| serde_json::from_str::<String>(l).ok()) {
+                Some(res) => {
+                    let stray_out: String = lines.collect::<Vec<_>>().join("\n");
+                    let stray = format!("{}{}", stray_out, String::from_utf8_lossy(&o.stderr));
+                    Ok((res, if stray.is_empty() { None } else { Some(stray) }))
+                }
+                None => Ok(("?".to_string(), Some(format!("{}{}", so, String::from_utf8_lossy(&o.stderr))))),
+            }
+        }
+        Ok(o) => Err(format!("reference-call child exit {:?}", o.status.code())),
+        Err(e) => Err(e.to_string()),
+    }
+}
+
+const SKEW_LOCALES: [&str; 4] = ["fr_CH.UTF-8", "de_DE.UTF-8", "tr_TR.UTF-8", "fr_FR.UTF-8"];
+/// indexed like pools::LANG_CODES (de en es fr it nl pt)
+const LANG_LOCALES: [&str; 7] = ["de_CH.UTF-8", "en_GB.UTF-8", "es_MX.UTF-8", "fr_CH.UTF-8", "it_CH.UTF-8", "nl_BE.UTF-8", "pt_BR.UTF-8"];
+
 /// The pristine reference table: every call in its own fresh process (16 at a time).
 /// Returns the results and, per call, any bytes the child wrote besides its one result line.
 fn pristine_table(calls: &[Call]) -> Result<(Vec<String>, Vec<Option<String>>), String> {
@@ -117,24 +149,19 @@ fn pristine_table(calls: &[Call]) -> Result<(Vec<String>, Vec<Option<String>>), 
                     break;
                 }
                 let js = serde_json::to_string(&calls[i]).unwrap();
-                let r = match std::process::Command::new(&exe).arg("reference-call").arg(&js).output() {
-                    Ok(o) if o.status.code() == Some(0) => {
-                        let so = String::from_utf8_lossy(&o.stdout).to_string();
-                        let mut lines = so.lines();
-                        match lines.next().and_then(|l| serde_json::from_str::<String>(l).ok()) {
-                            Some(res) => {
-                                let stray_out: String = lines.collect::<Vec<_>>().join("\n");
-                                let stray = format!("{}{}", stray_out, String::from_utf8_lossy(&o.stderr));
-                                Ok((res, if stray.is_empty() { None } else { Some(stray) }))
-                            }
-                            None => {
-                                // the call itself printed before/without the result line
-                                Ok(("?".to_string(), Some(format!("{}{}", so, String::from_utf8_lossy(&o.stderr)))))
-                            }
+                // environment skew: every call runs in TWO pristine processes under different locales and
+                // time zones; a pure function of its arguments gives the same answer in both
+                // the locale most likely to matter is one of the call's own language
+                let loc = if i % 3 == 0 { SKEW_LOCALES[i % 4] } else { LANG_LOCALES[calls[i].lang % 7] };
+                let r = match (call_in_child(&exe, &js, loc, "Asia/Tokyo"), call_in_child(&exe, &js, "C", "UTC")) {
+                    (Ok((ra, sa)), Ok((rb, sb))) => {
+                        if ra != rb {
+                            Ok((ra.clone(), Some(format!("ENVDIFF\u{1}{loc}\u{1}{ra}\u{1}{rb}"))))
+                        } else {
+                            Ok((ra, sa.or(sb)))
                         }
                     }
-                    Ok(o) => Err(format!("reference-call child exit {:?}", o.status.code())),
-                    Err(e) => Err(e.to_string()),
+                    (Err(e), _) | (_, Err(e)) => Err(e),
                 };
                 *results[i].lock().unwrap() = Some(r);
             });
@@ -186,6 +213,23 @@ pub fn replay_c14(doc: &Value) -> i32 {
             return 2;
         }
     };
+    if let Some(envs) = doc.get("envs").and_then(|e| e.as_array()) {
+        // environment-independence replay: the single call in two pristine processes
+        let exe = match std::env::current_exe() {
+            Ok(e) => e,
+            Err(_) => return 2,
+        };
+        let js = serde_json::to_string(&case.calls[0]).unwrap_or_default();
+        let a = call_in_child(&exe, &js, envs.first().and_then(|v| v.as_str()).unwrap_or("C"), "Asia/Tokyo");
+        let b = call_in_child(&exe, &js, envs.get(1).and_then(|v| v.as_str()).unwrap_or("C"), "UTC");
+        return match (a, b) {
+            (Ok((ra, _)), Ok((rb, _))) if ra != rb => {
+                flush_and_code(&[format!("REPLAY property=C14 oracle=H4-environment-independence {ra:?} vs {rb:?}"), "REPLAY-RESULT violation-reproduced oracle=H4-environment-independence".to_string()], 1)
+            }
+            (Ok(_), Ok(_)) => flush_and_code(&["REPLAY-RESULT no-violation property=C14".to_string()], 0),
+            _ => 2,
+        };
+    }
     let check = C14 { corpus: Corpus { calls: vec![], expected: vec![] } };
     let cap = Capture::start();
     let mut st = Stats::default();
@@ -234,6 +278,31 @@ pub fn run_c14(cfg: &BatchCfg, corpus_size: usize, pristine_sample: usize) -> i3
             return fail(&lines, 2);
         }
     };
+    if let Some(i) = stray.iter().position(|s| s.as_deref().map(|x| x.starts_with("ENVDIFF")).unwrap_or(false)) {
+        let parts: Vec<&str> = stray[i].as_deref().unwrap().split('\u{1}').collect();
+        let detail = format!(
+            "call {} gives {:?} in a pristine process under LANG=LC_ALL={} TZ=Asia/Tokyo but {:?} under LANG=LC_ALL=C TZ=UTC: the result depends on the process environment, not only on the arguments",
+            serde_json::to_string(&calls[i]).unwrap_or_default(),
+            parts.get(2).unwrap_or(&""),
+            parts.get(1).unwrap_or(&""),
+            parts.get(3).unwrap_or(&"")
+        );
+        let path = replay_dir().join(format!("C14-{}-env-{i}.json", cfg.seed));
+        let doc = json!({"property":"C14","oracle":"H4-environment-independence","detail":detail,
+            "envs":[parts.get(1).unwrap_or(&"C"), "C"], "case": single_call_case(&calls[i], &expected[i])});
+        let _ = std::fs::write(&path, serde_json::to_string_pretty(&doc).unwrap());
+        match confirm_in_child(&path, "H4-environment-independence") {
+            Ok(()) => {
+                lines.push(format!("violation detail: oracle=H4-environment-independence {detail}"));
+                lines.push(format!("VIOLATION property=C14 replay={}", path.display()));
+                return fail(&lines, 1);
+            }
+            Err(e) => {
+                lines.push(format!("HARNESS-ERROR property=C14 environment dependence did not reproduce: {e}"));
+                return fail(&lines, 2);
+            }
+        }
+    }
     if let Some(i) = stray.iter().position(|s| s.is_some()) {
         let detail = format!(
             "call {} alone in a pristine process wrote to the standard streams: {:?}",
